@@ -18,6 +18,9 @@
 #ifndef WIDE_HEAD
 #define WIDE_HEAD 0
 #endif
+#ifndef WIDE_AUTO
+#define WIDE_AUTO 0      // 1: automatic activation (the serialization passes only; there is no inactive machine then)
+#endif
 
 namespace {
 
@@ -35,7 +38,11 @@ void rec(uint8_t kind, uint8_t sid, const void* self, uint8_t ctlId) { if (g_n <
 
 struct Ev { int v; };
 
+#if WIDE_AUTO
+using M = ffsm2::MachineT<ffsm2::Config>;
+#else
 using M = ffsm2::MachineT<ffsm2::Config::ManualActivation>;
+#endif
 template <unsigned I> struct W;
 struct H;
 
@@ -233,6 +240,7 @@ void dispatchSweep(Instance& m, const std::vector<unsigned>& order) {
 	}
 }
 
+#if !WIDE_AUTO
 void runC14() {
 	Instance m;
 	g_n = 0;
@@ -275,6 +283,7 @@ void runC14() {
 	checkActive(m, -1, "exit()");
 	g_stats.add("machines");
 }
+#endif
 
 // ---------------------------------------------------------------------------
 // C12: all (saver, loader) pairs
@@ -294,10 +303,24 @@ struct Guarded {
 	bool intact() const { for (auto c : pre) if (c != a) return false; for (auto c : post) if (c != b) return false; return true; }
 };
 
+#if WIDE_AUTO
+bool activeOf(const Instance&) { return true; }
+void leave(Instance&) {}
+constexpr int FIRST_ACTIVITY = 0;    // automatic machines are never inactive
+#else
+bool activeOf(const Instance& m) { return m.isActive(); }
+void leave(Instance& m) { if (m.isActive()) m.exit(); }
+constexpr int FIRST_ACTIVITY = -1;
+#endif
+
 void putInto(Instance& m, int k) {
 	g_vetoAll = false;
+#if !WIDE_AUTO
 	if (k < 0) { if (m.isActive()) m.exit(); return; }
 	if (!m.isActive()) m.enter();
+#else
+	if (k < 0) k = 0;
+#endif
 	if (m.activeStateId() != static_cast<unsigned>(k)) m.immediateChangeTo(static_cast<ffsm2::StateID>(k));
 }
 
@@ -311,9 +334,9 @@ void runC12() {
 	// loader states sampled for large N (every saver activity is still loaded into every 'interesting' loader state)
 	std::vector<int> loaderStates;
 	const bool allPairs = g_args.thorough() || N <= 33;
-	if (allPairs) { for (int b = -1; b < static_cast<int>(N); ++b) loaderStates.push_back(b); }
-	else { vh::Rng rng(g_args.seed * 7 + N); loaderStates = {-1, 0, static_cast<int>(N - 1), static_cast<int>(N / 2)}; for (int i = 0; i < 12; ++i) loaderStates.push_back(static_cast<int>(rng.below(N))); }
-	for (int a = -1; a < static_cast<int>(N); ++a) {
+	if (allPairs) { for (int b = FIRST_ACTIVITY; b < static_cast<int>(N); ++b) loaderStates.push_back(b); }
+	else { vh::Rng rng(g_args.seed * 7 + N); loaderStates = {FIRST_ACTIVITY, 0, static_cast<int>(N - 1), static_cast<int>(N / 2)}; for (int i = 0; i < 12; ++i) loaderStates.push_back(static_cast<int>(rng.below(N))); }
+	for (int a = FIRST_ACTIVITY; a < static_cast<int>(N); ++a) {
 		putInto(saver, a);
 		Guarded g(static_cast<unsigned>(a + 1));
 		g_n = 0;
@@ -323,7 +346,7 @@ void runC12() {
 		const uint8_t* p = reinterpret_cast<const uint8_t*>(&g.buf);
 		std::vector<uint8_t> bytes(p, p + BYTES);
 		for (unsigned bit = BITS; bit < BYTES * 8; ++bit) if (bytes[bit / 8] >> (bit % 8) & 1) { viol("C12", "save-wrote-beyond-bit-capacity", "bit " + std::to_string(bit) + " set, capacity " + std::to_string(BITS)); break; }
-		const int sa = saver.isActive() ? static_cast<int>(saver.activeStateId()) : -1;
+		const int sa = activeOf(saver) ? static_cast<int>(saver.activeStateId()) : -1;
 		if (sa != a) viol("C12", "save-modified-the-machine|activity", "saver activity " + std::to_string(a) + " became " + std::to_string(sa));
 		for (int prev = -1; prev < a; ++prev)
 			if (canon[static_cast<size_t>(prev + 1)] == bytes) { viol("C12", "buffers-equal-for-different-activity", "activity " + std::to_string(prev) + " and " + std::to_string(a) + " serialise identically"); break; }
@@ -349,7 +372,7 @@ void runC12() {
 				viol("C12", std::string("load-trace|saver=") + (a < 0 ? "inactive" : "active") + "|loader=" + (b < 0 ? "inactive" : a == b ? "same" : "other"),
 					 "load(): saver " + std::to_string(a) + ", loader " + std::to_string(b) + " ran [" + logStr() + "], expected [" + expStr(e) + "]");
 			checkIdentity(loader, "load()");
-			const int la = loader.isActive() ? static_cast<int>(loader.activeStateId()) : -1;
+			const int la = activeOf(loader) ? static_cast<int>(loader.activeStateId()) : -1;
 			if (la != a) viol("C12", "loader-activity-differs-from-saver", "saver " + std::to_string(a) + ", loader after load() " + std::to_string(la));
 			Guarded g2(static_cast<unsigned>(b + 2));
 			static_cast<const Instance&>(loader).save(g2.buf);
@@ -360,8 +383,8 @@ void runC12() {
 		}
 	}
 	// "equal buffers if and only if equal activity", asked through the buffer type's own comparison operators
-	for (size_t i = 0; i <= N; ++i)
-		for (size_t j = 0; j <= N; ++j) {
+	for (size_t i = WIDE_AUTO; i <= N; ++i)
+		for (size_t j = WIDE_AUTO; j <= N; ++j) {
 			const bool eq = canonBuf[i] == canonBuf[j], ne = canonBuf[i] != canonBuf[j];
 			if (eq != (i == j) || ne != (i != j)) {
 				viol("C12", "buffer-comparison-operators-vs-activity", "buffers of activity " + std::to_string(static_cast<int>(i) - 1) + " and " + std::to_string(static_cast<int>(j) - 1) + ": operator== says " + std::to_string(eq) + ", operator!= says " + std::to_string(ne));
@@ -371,19 +394,19 @@ void runC12() {
 		}
 	// the same round trip through a buffer that is a heap object of exactly sizeof(SerialBuffer) bytes: under
 	// AddressSanitizer / memcheck an access one byte past it is reported (C18)
-	for (int a = -1; a < static_cast<int>(N); a += (N > 40 ? 7 : 1)) {
+	for (int a = FIRST_ACTIVITY; a < static_cast<int>(N); a += (N > 40 ? 7 : 1)) {
 		putInto(saver, a);
 		Instance::SerialBuffer* hb = new Instance::SerialBuffer;
 		static_cast<const Instance&>(saver).save(*hb);
-		putInto(loader, a < 0 ? 0 : -1);
+		putInto(loader, a < 0 ? 0 : (WIDE_AUTO ? static_cast<int>((a + 1) % N) : -1));
 		loader.load(*hb);
-		const int la = loader.isActive() ? static_cast<int>(loader.activeStateId()) : -1;
+		const int la = activeOf(loader) ? static_cast<int>(loader.activeStateId()) : -1;
 		if (la != a) viol("C12", "loader-activity-differs-from-saver|heap-buffer", "saver " + std::to_string(a) + ", loader after load() " + std::to_string(la));
 		delete hb;
 		g_stats.add("heap_buffer_round_trips");
 	}
-	if (saver.isActive()) saver.exit();
-	if (loader.isActive()) loader.exit();
+	leave(saver);
+	leave(loader);
 	g_stats.add(allPairs ? "machines_all_pairs" : "machines_sampled_pairs");
 }
 
@@ -408,24 +431,30 @@ void runC13() {
 		Guarded gl(static_cast<unsigned>(a) + 1u);
 		memcpy(static_cast<void*>(&gl.buf), &g.buf, BYTES);
 		loader.load(gl.buf);
-		const int la = loader.isActive() ? static_cast<int>(loader.activeStateId()) : -1;
+		const int la = activeOf(loader) ? static_cast<int>(loader.activeStateId()) : -1;
 		if (la != a) viol("C13", "state-index-does-not-survive-its-encoding", "index " + std::to_string(a) + " of a " + std::to_string(N) + "-state machine was written with the derived width and read back as " + std::to_string(la));
 		g_stats.add("index_round_trips");
 		g_sigs.insert(vh::mix(vh::mix(N, WIDE_HEAD), static_cast<uint64_t>(a)));
 	}
-	if (saver.isActive()) saver.exit();
-	if (loader.isActive()) loader.exit();
+	leave(saver);
+	leave(loader);
 }
 
 }
 
 int main(int argc, char** argv) {
 	g_args = vh::parseArgs(argc, argv);
+#if WIDE_AUTO
+	if (g_args.prop == "C13") runC13();
+	else if (g_args.prop == "C14") { /* dispatch sweeps run on the manually activated twin */ }
+	else { runC12(); if (g_args.prop != "C12") runC13(); }
+#else
 	if (g_args.prop == "C12") runC12();
 	else if (g_args.prop == "C14") runC14();
 	else if (g_args.prop == "C13") runC13();
 	else { runC14(); runC12(); runC13(); }
-	g_stats.add2("sizes", std::to_string(N) + (WIDE_HEAD ? "h" : "p"));
+#endif
+	g_stats.add2("sizes", std::to_string(N) + (WIDE_HEAD ? "h" : "p") + (WIDE_AUTO ? "a" : ""));
 	g_stats.emit();
 	vh::writeSigs(g_args.str("sigfile", ""), g_sigs);
 	printf("@SAMPLE {\"N\":%u,\"head\":%d,\"last_callbacks\":\"%s\"}\n", N, WIDE_HEAD, vh::jesc(logStr()).c_str());
